@@ -433,6 +433,12 @@ def MP.init : MP :=
   { p := Parser.init, k := Caps.init, sgen := 1, fault := false,
     capok := ⟨Nat.le_refl _, by show 1 ≤ growCap 0 0; exact growCap_fits 0 0, Nat.le_refl _⟩ }
 
+/-- a machine state from its parts (used by the driver for the operations that are only in the capacity overlay: clone,
+    `parser/insert`, `parser/state`); a capacity below its count -- excluded by `Props.C11.capacity_invariant` -- is raised to it -/
+def MP.ofParts (p : Parser) (k : Caps) (sgen : Nat) (fault : Bool) : MP :=
+  { p := p, k := ⟨max k.buf p.buf.length, max k.states p.states.length, max k.args p.args.length⟩, sgen := sgen, fault := fault,
+    capok := ⟨Nat.le_max_right _ _, Nat.le_max_right _ _, Nat.le_max_right _ _⟩ }
+
 /-! ### the client protocol (as `Run` / `feedByte` / `finish` in Model.lean) -/
 
 structure MRun where
